@@ -17,7 +17,7 @@ func init() {
 			dr := StartDriver(c.DriverBin)
 			ok := true
 			for _, be := range backendsAll {
-				ok = ok && dataInterleavings(c, dr, be)
+				ok = ok && dataInterleavings(c, dr, be) && bigFailingInserts(c, be)
 			}
 			dr.Close()
 			if !ok {
@@ -451,7 +451,7 @@ func streamC03(c *Ctx) {
 		sizes = []int{1100}
 	}
 	for _, be := range backendsAll {
-		if !repeatedOperandBulk(c, dr, be) {
+		if !repeatedOperandBulk(c, dr, be) || !bulkByIdCells(c, dr, be) {
 			return
 		}
 	}
